@@ -1,4 +1,5 @@
 import LokiModel.C35.Lemmas
+import LokiModel.C35.Loop
 import LokiModel.Props.C06
 /-!
 # C35 — Fortran-to-C transpilation preserves behaviour (property theorems: subscripts, operators, argument passing, expressions)
@@ -12,6 +13,9 @@ import LokiModel.Props.C06
   C's `pow` returns `double`) the C value is the Fortran value; `c_print_eval_partial` composes it with C06's printer theorem: for
   every Loki tree in `GoodC` the printed C token list derives, in the C99 expression grammar, a tree whose **C** value is the Fortran
   value of the Loki tree.
+* `c_loop_eq_doSeq`, `c_loop_eq_doSeq_nostep` — the header `for (i = s; i <= e; i += c)` (step absent or positive) resp.
+  `for (i = s; i >= e; i += c)` (negative step) that `CCodegen.visit_Loop` prints runs its body for exactly the values of the Fortran
+  DO sequence, in order, for every start, stop and non-zero step (given enough iterations: any fuel above the trip count).
 * `c_pass_writable_by_pointer`, `c_pass_value_iff_iface_value` — statements about the table regenerated from the real
   transformations on every run: every argument the kernel may write is a pointer in C, and a C by-value parameter is exactly a
   `VALUE` dummy of the ISO-C interface (so caller and callee agree on the ABI).
@@ -207,6 +211,27 @@ theorem c_print_eval_partial (t : E) (hg : GoodC ccfg t = true) (p : Nat) :
       ∀ env v, evalS env (den t) = some v → KnownCPow env s = false → evalC env s = some v := by
   obtain ⟨s, hs, he⟩ := C06_C_partial_expr t hg p
   exact ⟨s, hs, fun env v hv hk => c_eval_eq_partial env s v (by rw [he env]; exact hv) hk⟩
+
+/-! ### loop headers -/
+
+/-- **C35, loops**: for every start, stop and non-zero step the generated `for` header visits the Fortran DO sequence -/
+theorem c_loop_eq_doSeq (s e c : Int) (hc : c ≠ 0) (fuel : Nat) (hf : LokiModel.C10.tripCount s e c < fuel) :
+    cLoopSeq s e (some c) fuel = LokiModel.C10.doSeq s e c := by
+  by_cases hp : 0 < c
+  · simp only [cLoopSeq, critLe, hp, decide_true, Option.getD_some]
+    exact cFor_le_eq e c hp _ s fuel rfl hf
+  · have hn : c < 0 := by omega
+    simp only [cLoopSeq, critLe, hp, decide_false, Option.getD_some]
+    exact cFor_ge_eq e c hn _ s fuel rfl hf
+
+theorem c_loop_eq_doSeq_nostep (s e : Int) (fuel : Nat) (hf : LokiModel.C10.tripCount s e 1 < fuel) :
+    cLoopSeq s e none fuel = LokiModel.C10.doSeq s e 1 := by
+  simp only [cLoopSeq, critLe, Option.getD_none]
+  exact cFor_le_eq e 1 (by omega) _ s fuel rfl hf
+
+/-- non-vacuity: a downward loop whose sequence reaches the stop value, and one whose sequence does not -/
+example : cLoopSeq 5 1 (some (-1)) 9 = [5, 4, 3, 2, 1] ∧ cLoopSeq 6 1 (some (-2)) 9 = [6, 4, 2] ∧
+    cLoopSeq 7 1 (some (-2)) 9 = [7, 5, 3, 1] := by decide
 
 /-! ### argument passing (about the regenerated table) -/
 
